@@ -1,9 +1,44 @@
-import Oracle.Proto
+/-
+  Oracle.C01 — runs the reference semantics `Spec.Lua.run` on the programs of the C01/C11 harness.
+  Input lines:
+      P <id> <S-expression of the chunk>
+      R <id> <tag> <arg> <arg> …        (arg values in the line-protocol encoding)
+  Output: one line per R line:  `<id> <tag> <outcome>`  with outcome
+      T[<events>] ok[<values>] | T[<events>] err[<value>] | oof | unsup <what>
+-/
+import Oracle.LuaSexp
+import Std.Data.HashMap
 namespace Oracle.C01
+open GoluaVerif GoluaVerif.Spec GoluaVerif.Spec.Lua Oracle Oracle.LuaSexp
 
-/-- placeholder: the oracle driver for C01 is not built yet -/
-def main (_args : List String) : IO UInt32 := do
-  IO.eprintln "oracle mode c01: not built"
-  return 2
+def defaultFuel : Nat := 6000
+
+def main (args : List String) : IO UInt32 := do
+  let fuel := match args with
+    | f :: _ => f.toNat?.getD defaultFuel
+    | [] => defaultFuel
+  let stdin ← IO.getStdin
+  let stdout ← IO.getStdout
+  let progs ← IO.mkRef (∅ : Std.HashMap String Block)
+  forEachLine stdin fun line => do
+    if line.startsWith "P " then
+      let rest := (line.drop 2).toString
+      let id := (rest.takeWhile (· != ' ')).toString
+      let body := (rest.drop (id.length + 1)).toString
+      match parseSexp body >>= toBlock with
+      | .ok b => progs.modify (·.insert id b)
+      | .error e => stdout.putStrLn s!"{id} parse-error {e}"
+    else if line.startsWith "R " then
+      match line.splitOn " " with
+      | _ :: id :: tag :: argStrs =>
+        let input := argStrs.filterMap (fun a => (V.parse a).map valOfV)
+        match (← progs.get).get? id with
+        | some b =>
+          let out := run nativeFloatOps fuel b input
+          stdout.putStrLn s!"{id} {tag} {showOutcome out}"
+        | none => stdout.putStrLn s!"{id} {tag} no-such-program"
+      | _ => stdout.putStrLn "bad-line"
+    else pure ()
+  return 0
 
 end Oracle.C01
